@@ -78,13 +78,33 @@ def rule_deal_with_axis(ctx):
     fi = ctx.fn(TR + '_deal_with_axis')
     OBJ, AXIS = P_('obj'), P_('axis')
     ev = run(ctx, fi)
+    from ..rules import val_eval, UNKNOWN
+    TYPE = ('call', ('name', 'type'), (AXIS,), ())
+    names = {('name', n): t for n, t in (('tuple', tuple), ('list', list), ('int', int), ('str', str), ('set', set))}
+
+    def kinds_of(p):
+        # the kinds of `axis` argument a returning path serves: its guards evaluated for each type of the argument
+        out = []
+        for kind in (tuple, list, int, str):
+            env = dict(names)
+            env[TYPE] = kind
+            env[('call', ('name', 'isinstance'), (AXIS, ('tuple', (('name', 'tuple'), ('name', 'list')))), ())] = kind in (tuple, list)
+            env[('call', ('name', 'isinstance'), (AXIS, ('tuple', (('name', 'list'), ('name', 'tuple')))), ())] = kind in (tuple, list)
+            res = [(val_eval(a, env), pol) for a, pol in p.guards]
+            if all(r is UNKNOWN or bool(r) == pol for r, pol in res):
+                out.append(kind)
+        return out
     for p in ret_paths(ev):
         v = p.value
         if not (v[0] == 'tuple' and len(v[1]) == 3):
             ctx.undecide('R3', '_deal_with_axis returns %s' % T.show(v)[:100])
             continue
         newobj, idx, name = v[1]
-        tup = any('tuple' in T.show(a) and pol for a, pol in p.guards)
+        kinds = kinds_of(p)
+        if set(kinds) & {tuple, list} and set(kinds) & {int, str}:
+            ctx.undecide('R3', '_deal_with_axis: the path returning %s serves both a tuple and a single axis' % T.show(v)[:100])
+            continue
+        tup = bool(set(kinds) & {tuple, list})
         if tup:
             ok = newobj[0] == 'call' and T.call_name(newobj) == 'flatten' and T.call_receiver(newobj) == OBJ and newobj[2][:1] == (AXIS,) \
                 and idx[0] == 'const' and isinstance(idx[1], int) and T.kw(newobj, 'insert') == idx \
